@@ -6,7 +6,7 @@
 -/
 import VotelibProofs.Lemmas.PermSTV
 import VotelibProofs.Lemmas.STVSplit
-namespace VL.Perm
+namespace VL.Perm.Stv
 open VL VL.STV VL.C10
 
 /-! ### the relations -/
@@ -552,4 +552,4 @@ theorem initialAllocation_gregory_perm {v₁ v₂ : Profile} (h : v₁.Perm v₂
   unfold fictionalPile
   exact addAll_perm ((h.filter _).flatMap_right _) (firstPrefs_rel h hn)
 
-end VL.Perm
+end VL.Perm.Stv
